@@ -318,7 +318,108 @@ def issue_fields():
     return body
 
 
+def zexpr(e, env):
+    """A Python integer expression as a Coq Z term; names come from env (fail-closed)."""
+    src = ast.unparse(e)
+    if src in env:
+        return env[src]
+    if isinstance(e, ast.Constant) and isinstance(e.value, int) and not isinstance(e.value, bool):
+        return "(%d)" % e.value
+    if isinstance(e, ast.UnaryOp) and isinstance(e.op, ast.USub):
+        return "(- %s)" % zexpr(e.operand, env)
+    if isinstance(e, ast.BinOp):
+        ops = {ast.Add: "+", ast.Sub: "-", ast.Mult: "*", ast.FloorDiv: "/"}
+        if type(e.op) in ops:
+            return "(%s %s %s)" % (zexpr(e.left, env), ops[type(e.op)], zexpr(e.right, env))
+    if isinstance(e, ast.Call) and isinstance(e.func, ast.Name) and e.func.id in ("max", "min") and len(e.args) == 2 and not e.keywords:
+        return "(Z.%s %s %s)" % (e.func.id, zexpr(e.args[0], env), zexpr(e.args[1], env))
+    raise ValueError("integer expression not understood: " + src)
+
+
+def locations():
+    """Where locations come from: the excerpt window of Issue.get_code, the positioned branch of
+    utils.linerange, the context assignments of the visitor, the tester's default filling and the
+    keyword line lookup."""
+    body = "Local Open Scope Z_scope.\n"
+    # ---- Issue.get_code
+    tree = ast.parse(open(os.path.join(REPO, "bandit/core/issue.py")).read())
+    gc = find_func(tree, "Issue.get_code")
+    assigns = {}
+    for n in ast.walk(gc):
+        if isinstance(n, (ast.Assign, ast.AugAssign)):
+            tg = n.targets[0] if isinstance(n, ast.Assign) else n.target
+            if isinstance(tg, ast.Name) and tg.id in ("max_lines", "lmin", "lmax"):
+                if isinstance(n, ast.AugAssign) or tg.id in assigns:
+                    raise ValueError("get_code: %s assigned more than once" % tg.id)
+                assigns[tg.id] = n
+    if sorted(assigns) != ["lmax", "lmin", "max_lines"] or not (assigns["max_lines"].lineno < assigns["lmin"].lineno < assigns["lmax"].lineno):
+        raise ValueError("get_code: window assignments not found in order")
+    body += "Definition gc_n (max_lines : Z) : Z := %s.\n" % zexpr(assigns["max_lines"].value, {"max_lines": "max_lines"})
+    body += "Definition gc_lmin (lineno n : Z) : Z := %s.\n" % zexpr(assigns["lmin"].value, {"self.lineno": "lineno", "max_lines": "n"})
+    body += "Definition gc_lmax (lmin len n : Z) : Z := %s.\n" % zexpr(
+        assigns["lmax"].value, {"lmin": "lmin", "len(self.linerange)": "len", "max_lines": "n"})
+    loops = [n for n in ast.walk(gc) if isinstance(n, ast.For) and isinstance(n.target, ast.Name) and n.target.id == "line"]
+    if len(loops) != 1 or assigns["lmax"].lineno > loops[0].lineno:
+        raise ValueError("get_code: excerpt loop not found")
+    lp = loops[0]
+    brk = [ast.unparse(x.test) for x in lp.body if isinstance(x, ast.If) and any(isinstance(y, ast.Break) for y in x.body)]
+    app = [ast.unparse(x.value.args[0]) for x in lp.body if isinstance(x, ast.Expr) and isinstance(x.value, ast.Call)
+           and dotted(x.value.func) == "lines.append"]
+    others = [ast.unparse(x)[:60] for x in lp.body if isinstance(x, (ast.Continue, ast.Return, ast.For, ast.While))]
+    tm = [ast.unparse(n.value) for n in ast.walk(gc) if isinstance(n, ast.Assign) and isinstance(n.targets[0], ast.Name) and n.targets[0].id == "tmplt"]
+    ret = [ast.unparse(n.value) for n in ast.walk(gc) if isinstance(n, ast.Return)]
+    body += "Definition GC_LOOP : list pstr := %s.\n" % L.lst([L.pstr(x) for x in [ast.unparse(lp.iter)] + brk + app + others + tm + ret], "pstr")
+    # ---- utils.linerange, positioned branch
+    ut = ast.parse(open(os.path.join(REPO, "bandit/core/utils.py")).read())
+    lr = find_func(ut, "linerange")
+    stmts = [x for x in lr.body if not (isinstance(x, ast.Expr) and isinstance(x.value, ast.Constant))]
+    first = stmts[0]
+    if not (isinstance(first, ast.If) and ast.unparse(first.test) == "hasattr(node, 'lineno')" and len(first.body) == 1
+            and isinstance(first.body[0], ast.Return)):
+        raise ValueError("linerange: positioned branch not recognised")
+    r = first.body[0].value
+    if not (isinstance(r, ast.Call) and dotted(r.func) == "list" and isinstance(r.args[0], ast.Call) and dotted(r.args[0].func) == "range"
+            and len(r.args[0].args) == 2):
+        raise ValueError("linerange: positioned branch does not return list(range(a, b))")
+    env = {"node.lineno": "lineno", "node.end_lineno": "end_lineno"}
+    body += "Definition lr_pos (lineno end_lineno : Z) : Z * Z := (%s, %s).\n" % (zexpr(r.args[0].args[0], env), zexpr(r.args[0].args[1], env))
+    # ---- context assignments in the visitor
+    nv = ast.parse(open(os.path.join(REPO, "bandit/core/node_visitor.py")).read())
+    rows = []
+    for fname in ("pre_visit", "visit_Str", "visit_Bytes", "visit_Call", "visit_FunctionDef", "process"):
+        fn = find_func(nv, "BanditNodeVisitor." + fname)
+        for n in ast.walk(fn):
+            if isinstance(n, ast.Assign) and isinstance(n.targets[0], ast.Subscript) and dotted(n.targets[0].value) == "self.context" \
+                    and isinstance(n.targets[0].slice, ast.Constant):
+                rows.append((fname, n.targets[0].slice.value, ast.unparse(n.value)))
+            if isinstance(n, ast.Assign) and dotted(n.targets[0]) == "self.context" and isinstance(n.value, ast.Dict):
+                for k, v in zip(n.value.keys, n.value.values):
+                    rows.append((fname, k.value, ast.unparse(v)))
+    body += "Definition CTX_ASSIGNS : list (pstr * (pstr * pstr)) := %s.\n" % L.lst(
+        [L.pair(L.pstr(a), L.pair(L.pstr(b), L.pstr(c))) for a, b, c in sorted(rows) if b in ("lineno", "linerange", "col_offset", "end_col_offset")], "pstr * (pstr * pstr)")
+    # ---- tester defaults
+    te = ast.parse(open(os.path.join(REPO, "bandit/core/tester.py")).read())
+    rt = find_func(te, "BanditTester.run_tests")
+    fills = []
+    for n in ast.walk(rt):
+        if isinstance(n, ast.If) and len(n.body) == 1 and isinstance(n.body[0], ast.Assign) and dotted(n.body[0].targets[0]).startswith("result.") \
+                and not n.orelse:
+            fills.append((dotted(n.body[0].targets[0]), ast.unparse(n.test), ast.unparse(n.body[0].value)))
+    body += "Definition DEFAULT_FILL : list (pstr * (pstr * pstr)) := %s.\n" % L.lst(
+        [L.pair(L.pstr(a), L.pair(L.pstr(b), L.pstr(c))) for a, b, c in sorted(fills)], "pstr * (pstr * pstr)")
+    # ---- keyword line lookup
+    cx = ast.parse(open(os.path.join(REPO, "bandit/core/context.py")).read())
+    kl = find_func(cx, "Context.get_lineno_for_call_arg")
+    stm = [ast.unparse(x) for x in kl.body if not (isinstance(x, ast.Expr) and isinstance(x.value, ast.Constant))]
+    body += "Definition KW_LINE : list pstr := %s.\n" % L.lst([L.pstr(x) for x in stm], "pstr")
+    return body
+
+
 def main():
+    try:
+        write("Locations.v", locations())
+    except Exception as e:
+        stub("Locations.v", e)
     try:
         write("IssueFields.v", issue_fields())
     except Exception as e:
